@@ -7,11 +7,17 @@ package harness
 // The name of a message is its RAW spelling (`_` = space in the op line): mixed case, white
 // space around the name or around a segment — all accepted by ValidateBasic — by owners and by
 // strangers, in every message kind.
+// VOLUME is an input dimension: `bulk` puts many attributes with one expiration into a history
+// (n MsgAddAttribute messages in one transaction, values base..base+n-1), so that many
+// attributes expire between two blocks; `sweep` calls Keeper.DeleteExpiredAttributes with a small
+// limit of its own, which exercises the cap logic of the sweep loop (counter, break, key order)
+// that the chain runs with MaxExpiredAttributionCount.
 
 import (
 	"crypto/sha256"
 	"encoding/binary"
 	"fmt"
+	"os"
 	"sort"
 	"strconv"
 	"strings"
@@ -396,6 +402,44 @@ func (e *attrEnv) exec(op string) string {
 				Record: nametypes.NameRecord{Name: attrRaw(ws[2]), Address: e.bech(ws[1])}})
 			return err
 		})
+	case "bulk":
+		// bulk <signer> <acct> <name> <base> <n> <type> <exp|->
+		if len(ws) != 8 {
+			return "bad-op"
+		}
+		base, _ := strconv.ParseInt(ws[4], 10, 64)
+		n, _ := strconv.Atoi(ws[5])
+		for i := 0; i < n; i++ {
+			v := strconv.FormatInt(base+int64(i), 10)
+			h := sha256.Sum256([]byte(v))
+			e.valSym[string(h[:])] = v
+		}
+		return run(func(ctx sdk.Context) error {
+			for i := 0; i < n; i++ {
+				m := &attrtypes.MsgAddAttributeRequest{
+					Owner: e.bech(ws[1]), Account: e.bech(ws[2]), Name: attrRaw(ws[3]),
+					Value:         []byte(strconv.FormatInt(base+int64(i), 10)),
+					AttributeType: attrTypeOf(ws[6]), ExpirationDate: attrExp(ws[7])}
+				if i == 0 {
+					vb(m)
+				}
+				if _, err := e.amsg.AddAttribute(ctx, m); err != nil {
+					return err
+				}
+			}
+			return nil
+		})
+	case "sweep":
+		// sweep <t> <limit>: the keeper's sweep with a limit of its own
+		if len(ws) != 3 {
+			return "bad-op"
+		}
+		t, _ := strconv.ParseInt(ws[1], 10, 64)
+		limit, _ := strconv.Atoi(ws[2])
+		e.ctx = e.ctx.WithBlockTime(time.Unix(t, 0).UTC())
+		return Guard(func() string {
+			return "ok " + strconv.Itoa(attrApp.AttributeKeeper.DeleteExpiredAttributes(e.ctx, limit))
+		})
 	case "begin":
 		t, _ := strconv.ParseInt(ws[1], 10, 64)
 		e.ctx = e.ctx.WithBlockTime(time.Unix(t, 0).UTC())
@@ -511,7 +555,7 @@ func (e *attrEnv) dump() string {
 // --- observed-state helpers for the generator (mostly-valid ops) ---
 
 // position of the name token in each op line
-var attrNameField = map[string]int{"add": 3, "upd": 3, "updexp": 3, "del": 3, "deld": 3, "bind": 1, "xfer": 2, "delname": 2}
+var attrNameField = map[string]int{"bulk": 3, "add": 3, "upd": 3, "updexp": 3, "del": 3, "deld": 3, "bind": 1, "xfer": 2, "delname": 2}
 
 type attrRec struct{ acct, name, value, ty, exp string }
 
@@ -545,7 +589,14 @@ func (e *attrEnv) emit(out *Out, op string) string {
 	ws := strings.Fields(op)
 	if ws[0] != "dump" && ws[0] != "init" {
 		out.Count("op:" + ws[0])
-		out.Count("res:" + ws[0] + ":" + res)
+		if ws[0] == "sweep" && strings.HasPrefix(res, "ok ") {
+			out.Count("res:sweep:ok")
+			if ws[2] != "0" && res == "ok "+ws[2] {
+				out.Count("sweep:limit_reached")
+			}
+		} else {
+			out.Count("res:" + ws[0] + ":" + res)
+		}
 		if res == "ok" {
 			out.Count("accepted")
 		} else {
@@ -593,6 +644,27 @@ func driveAttr(t *testing.T, rng *RNG, n int, out *Out) {
 		accts := []string{Pick(rng, signers), Pick(rng, signers), "C"}
 		vals := []string{Pick(rng, attrValues), Pick(rng, attrValues), Pick(rng, attrValues)}
 		nops := 3 + rng.Intn(maxOps-2)
+		// VOLUME histories (about one in twenty): the first message is a bulk of n attributes with
+		// one expiration (n from a handful up to a few thousand; the thorough tier goes further),
+		// then a short tail in which blocks begin often
+		volume, volN := rng.Chance(5), 0
+		if volume {
+			switch r := rng.Intn(100); {
+			case r < 30:
+				volN = 2 + rng.Intn(40)
+			case r < 55:
+				volN = 40 + rng.Intn(500)
+			case r < 80:
+				volN = 500 + rng.Intn(1000)
+			default:
+				volN = 1500 + rng.Intn(2000)
+			}
+			if *flagTier == "thorough" && rng.Chance(4) {
+				volN = 3500 + rng.Intn(8000)
+			}
+			nops = 3 + rng.Intn(6)
+			out.Count("volume:histories")
+		}
 		seen := map[string]attrRec{}
 		var gone []attrRec
 		var plan []string
@@ -678,13 +750,23 @@ func driveAttr(t *testing.T, rng *RNG, n int, out *Out) {
 			}
 			var op string
 			k := rng.Intn(100)
+			if volume {
+				switch {
+				case i == 0:
+					k = 98
+				case rng.Chance(35):
+					k = 85
+				case rng.Chance(10):
+					k = 95
+				}
+			}
 			// follow-up of an accepted name deletion: bind the name again, re-add what was
 			// purged, let time pass (each step taken three times out of four)
 			forced := ""
 			if len(plan) > 0 {
 				if rng.Chance(75) {
 					forced = plan[0]
-					k = map[string]int{"bind": 66, "readd": 0, "begin": 99}[forced]
+					k = map[string]int{"bind": 66, "readd": 0, "begin": 85}[forced]
 				}
 				plan = plan[1:]
 			}
@@ -781,8 +863,73 @@ func driveAttr(t *testing.T, rng *RNG, n int, out *Out) {
 			case k < 82:
 				sg, nm := sn()
 				op = fmt.Sprintf("delname %s %s", sg, nm)
-			default:
+			case k < 95:
 				op = fmt.Sprintf("begin %d", e.now()+int64(Pick(rng, []int{0, 1, 1, 2, 3, 6, 11, 25})))
+			case k < 98:
+				// the keeper's sweep with a small limit of its own (0 = no limit)
+				op = fmt.Sprintf("sweep %d %d", e.now()+int64(Pick(rng, []int{0, 1, 2, 3, 6, 11, 25})), Pick(rng, []int{0, 1, 1, 2, 2, 3, 5, 40}))
+			default:
+				// many attributes with one expiration: n add messages in one transaction; the values
+				// are base..base+n-1 (base 1 runs over the values of the single adds)
+				n := 2 + rng.Intn(11)
+				if volume {
+					n = 2 + rng.Intn(300)
+					if i == 0 {
+						n = volN
+					}
+				}
+				base := Pick(rng, []int{1, 1, 2, 5, 1000, 10000 + rng.Intn(1000)})
+				bexp := "-"
+				if volume || rng.Chance(85) {
+					bexp = strconv.FormatInt(e.now()+int64(Pick(rng, []int{0, 1, 2, 3, 5, 8})), 10)
+				}
+				if ty == "unspecified" && volume {
+					ty = "string"
+				}
+				if acct == "-" && volume {
+					acct = accts[0]
+				}
+				if o := e.owner(name); o != "" && (volume || rng.Chance(80)) {
+					signer = o
+				}
+				sg, nm := signer, name
+				if !volume {
+					sg, nm = sn()
+				}
+				op = fmt.Sprintf("bulk %s %s %s %d %d %s %s", sg, acct, nm, base, n, ty, bexp)
+				switch {
+				case n <= 50:
+					out.Count("bulk:n<=50")
+				case n <= 500:
+					out.Count("bulk:n<=500")
+				case n <= 1500:
+					out.Count("bulk:n<=1500")
+				case n <= 3500:
+					out.Count("bulk:n<=3500")
+				default:
+					out.Count("bulk:n>3500")
+				}
+			}
+			if strings.HasPrefix(op, "begin ") || strings.HasPrefix(op, "sweep ") {
+				// how many stored attributes have an expiration before the new block time
+				t, _ := strconv.ParseInt(strings.Fields(op)[1], 10, 64)
+				due := 0
+				for _, r := range recs {
+					if x, err := strconv.ParseInt(r.exp, 10, 64); err == nil && x < t {
+						due++
+					}
+				}
+				kind := strings.Fields(op)[0]
+				switch {
+				case due == 0:
+					out.Count(kind + ":expired=0")
+				case due < 10:
+					out.Count(kind + ":expired=1..9")
+				case due < 1000:
+					out.Count(kind + ":expired=10..999")
+				default:
+					out.Count(kind + ":expired>=1000")
+				}
 			}
 			res := e.emit(out, op)
 			e.emit(out, "dump")
@@ -792,6 +939,47 @@ func driveAttr(t *testing.T, rng *RNG, n int, out *Out) {
 			}
 		}
 		out.Count("histories")
+	}
+}
+
+// TestAttrSweepCapWitness reproduces finding C16-sweep-cap on the real code at the real scale
+// (too large for the line protocol: the Lean model is quadratic in the number of attributes).
+// MaxExpiredAttributionCount+1 attributes with one expiration are added through the message
+// server; after the first block that begins after the expiration the surplus is still readable
+// through the keeper, after the second block it is gone.  Run with
+//   VERIF_ATTR_OVERCAP=1 .build/pvharness.test -test.run '^TestAttrSweepCapWitness$' -test.v
+func TestAttrSweepCapWitness(t *testing.T) {
+	if os.Getenv("VERIF_ATTR_OVERCAP") == "" {
+		t.Skip("set VERIF_ATTR_OVERCAP=1")
+	}
+	n := attribute.MaxExpiredAttributionCount + 1
+	e := newAttrEnv(t)
+	e.reset([]string{"now=100", "names=kyc.vf:A"})
+	expired := func() (stored, exp int) {
+		attrs, err := attrApp.AttributeKeeper.GetAllAttributesAddr(e.ctx, e.addrs["B"])
+		if err != nil {
+			t.Fatal(err)
+		}
+		for _, a := range attrs {
+			if a.ExpirationDate != nil && a.ExpirationDate.Before(e.ctx.BlockTime()) {
+				exp++
+			}
+		}
+		return len(attrs), exp
+	}
+	if res := e.exec(fmt.Sprintf("bulk A B kyc.vf 1 %d string 110", n)); res != "ok" {
+		t.Fatalf("bulk: %s", res)
+	}
+	s0, _ := expired()
+	e.exec("begin 111")
+	s1, x1 := expired()
+	accs, _ := attrApp.AttributeKeeper.AccountsByAttribute(e.ctx, "kyc.vf")
+	e.exec("begin 112")
+	s2, x2 := expired()
+	t.Logf("cap=%d added=%d stored=%d | after begin 111: stored=%d expired-but-stored=%d lookup-accounts=%d | after begin 112: stored=%d expired-but-stored=%d",
+		attribute.MaxExpiredAttributionCount, n, s0, s1, x1, len(accs), s2, x2)
+	if x1 == 0 {
+		t.Fatalf("not reproduced: nothing expired is left after the first block")
 	}
 }
 
